@@ -47,6 +47,12 @@ package authf
 //@   ensures [C04] (ok4 && err == nil) ==> st.SHashSecretKey2 == (k4 == 0 ? decStrV(src, q3, 4, d0) : old(st.SHashSecretKey2))
 //@   ensures [C06] (ok3 && k4 == 2) ==> err != nil
 //@   ensures [C04] ok4 ==> (err == nil && readBuf.buf.i == q4)
+//@   site ).Read#0 assert [C04] $2 == 1 && $3 == false
+//@   site ).Read#1 assert [C04] $2 == 2 && $3 == false
+//@   site ).Read#2 assert [C04] $2 == 3 && $3 == false
+//@   site ).Read#3 assert [C04] $2 == 4 && $3 == false
+//@   sites ).Read = 4
+//@   sites ).Skip = 0
 //@   safety [C05]
 //
 //@ func (*BasicAuthInfo).ReadBlock
@@ -140,6 +146,13 @@ package authf
 //@   ensures [C04] (ok5 && err == nil) ==> st.SSignature == (k5 == 0 ? decStrV(src, q4, 5, d0) : old(st.SSignature))
 //@   ensures [C06] (ok4 && k5 == 2) ==> err != nil
 //@   ensures [C04] ok5 ==> (err == nil && readBuf.buf.i == q5)
+//@   site ).Read#0 assert [C04] $2 == 1 && $3 == true
+//@   site ).Read#1 assert [C04] $2 == 2 && $3 == true
+//@   site ).Read#2 assert [C04] $2 == 3 && $3 == true
+//@   site ).Read#3 assert [C04] $2 == 4 && $3 == false
+//@   site ).Read#4 assert [C04] $2 == 5 && $3 == false
+//@   sites ).Read = 5
+//@   sites ).Skip = 0
 //@   safety [C05]
 //
 //@ func (*BasicAuthPackage).ReadBlock
@@ -222,6 +235,11 @@ package authf
 //@   ensures [C04] (ok3 && err == nil) ==> st.SObjName == (k3 == 0 ? decStrV(src, q2, 3, d0) : old(st.SObjName))
 //@   ensures [C06] (ok2 && k3 == 2) ==> err != nil
 //@   ensures [C04] ok3 ==> (err == nil && readBuf.buf.i == q3)
+//@   site ).Read#0 assert [C04] $2 == 1 && $3 == true
+//@   site ).Read#1 assert [C04] $2 == 2 && $3 == true
+//@   site ).Read#2 assert [C04] $2 == 3 && $3 == true
+//@   sites ).Read = 3
+//@   sites ).Skip = 0
 //@   safety [C05]
 //
 //@ func (*TokenKey).ReadBlock
@@ -277,6 +295,10 @@ package authf
 //@   allocates
 //@   ensures [C05] readBuf.buf.i >= p0
 //@   ensures [C05] validR(readBuf)
+//@   site ).Read#0 assert [C04] $2 == 1 && $3 == true
+//@   site ).Read#1 assert [C04] $2 == 2 && $3 == true
+//@   sites ).Read = 2
+//@   sites ).Skip = 0
 //@   safety [C05]
 //
 //@ func (*AuthRequest).ReadBlock
@@ -331,6 +353,11 @@ package authf
 //@   ensures [C05] validR(readBuf)
 //@   loop 0 modifies elems(st.VObjName), readBuf.buf.i, readBuf.depth
 //@   loop 0 invariant [C05] validR(readBuf) && readBuf.buf.i >= p0 && st != nil && len(st.VObjName) == e0 && 0 <= i0
+//@   site ).Read#0 assert [C04] $2 == 0 && $3 == true
+//@   site ).Read#1 assert [C04] $2 == 0 && $3 == true
+//@   sites ).Read = 2
+//@   site ).Skip#0 assert [C04] $1 == 1 && $2 == true
+//@   sites ).Skip = 1
 //@   safety [C05]
 //
 //@ func (*TokenRequest).ReadBlock
@@ -376,6 +403,13 @@ package authf
 //@   ensures [C04] (ok1 && err == nil) ==> st.SObjName == (k1 == 0 ? decStrV(src, q0, 1, d0) : old(st.SObjName))
 //@   ensures [C06] (k1 == 2) ==> err != nil
 //@   loop 0 invariant [C05] validR(readBuf) && readBuf.buf.i >= p0 && st != nil && st.MTokens != nil && 0 <= i0
+//@   site ).Read#0 assert [C04] $2 == 1 && $3 == true
+//@   site ).Read#1 assert [C04] $2 == 0 && $3 == true
+//@   site ).Read#2 assert [C04] $2 == 0 && $3 == true
+//@   site ).Read#3 assert [C04] $2 == 1 && $3 == true
+//@   sites ).Read = 4
+//@   site ).Skip#0 assert [C04] $1 == 8 && $2 == 2 && $3 == true
+//@   sites ).Skip = 1
 //@   safety [C05]
 //
 //@ func (*TokenResponse).ReadBlock
@@ -412,6 +446,9 @@ package authf
 //@   allocates
 //@   ensures [C05] readBuf.buf.i >= p0
 //@   ensures [C05] validR(readBuf)
+//@   site ).Read#0 assert [C04] $2 == 1 && $3 == true
+//@   sites ).Read = 1
+//@   sites ).Skip = 0
 //@   safety [C05]
 //
 //@ func (*ApplyTokenRequest).ReadBlock
@@ -461,6 +498,10 @@ package authf
 //@   allocates
 //@   ensures [C05] readBuf.buf.i >= p0
 //@   ensures [C05] validR(readBuf)
+//@   site ).Read#0 assert [C04] $2 == 1 && $3 == true
+//@   site ).Read#1 assert [C04] $2 == 2 && $3 == true
+//@   sites ).Read = 2
+//@   sites ).Skip = 0
 //@   safety [C05]
 //
 //@ func (*ApplyTokenResponse).ReadBlock
@@ -513,6 +554,9 @@ package authf
 //@   allocates
 //@   ensures [C05] readBuf.buf.i >= p0
 //@   ensures [C05] validR(readBuf)
+//@   site ).Read#0 assert [C04] $2 == 1 && $3 == true
+//@   sites ).Read = 1
+//@   sites ).Skip = 0
 //@   safety [C05]
 //
 //@ func (*DeleteTokenRequest).ReadBlock
